@@ -60,7 +60,14 @@ def gen(ctx, progs, n):
             for w1 in range(6, 34 if ctx.quick() else 60, 1):
                 for p2 in (1, 2, 3):
                     out.append((prog, parking_fine('0', '1', p1, w1, p2)))
-    while len(out) < n:
+    # EINTR delivered to a thread asleep on a futex: a queued waiter (wait-node futex) or the grace-period leader (gp.futex), after k steps of the leader
+    for prog in [q for q in progs if q.count('/') >= 2 and 'S' in q.split('/')[1] and 'S' in q.split('/')[2]][:2]:
+        for k in range(0, 50 if ctx.quick() else 120, 3 if ctx.quick() else 1):
+            for j in (0, 2, 5):
+                out.append((prog, '1b' * k + '>2' + '!2' + '2c' * j + '>1>2>1>2'))
+                out.append((prog, '0a' * 4 + '1b' * k + '>2' + '>1' + '!1' + '1b' * j + '!2' + '>0>0>1>2'))
+    nrand = len(out) + max(n // 2, 150)        # the random part is always present, whatever the size of the sweeps
+    while len(out) < nrand:
         prog = ctx.rng.choice(progs); th = [str(i) for i in range(prog.count('/') + 1)]
         s = bursty(ctx.rng, th, lo=60, hi=500, flush=ctx.rng.choice([0.05, 0.2, 0.4]), means=(1, 3, 10, 30), spurious=ctx.rng.choice([0.0, 0.02, 0.05]))
         if ctx.rng.random() < 0.5:      # EINTR choices at random positions
